@@ -222,7 +222,13 @@ def build_segment(S, spec):
 
 
 def build_path(S, specs):
-    return S.Path(*[build_segment(S, sp) for sp in specs])
+    """segments linked exactly: every start is a copy of the predecessor's end (the generator's own arithmetic
+    for arc start points may be an ulp off, which is not the library's business)"""
+    segs = [build_segment(S, sp) for sp in specs]
+    for a, b in zip(segs, segs[1:]):
+        if a.end is not None:
+            b.start = S.Point(a.end.x, a.end.y)
+    return S.Path(*segs)
 
 
 def magnitude(specs):
